@@ -3344,6 +3344,18 @@ impl PeerConnection {
         config.label = label.to_string();
 
         let id = if let Some(negotiated_id) = config.negotiated {
+            // Two live channels on one stream would receive each other's messages.
+            if self
+                .inner
+                .data_channels
+                .lock()
+                .iter()
+                .any(|w| w.upgrade().is_some_and(|dc| dc.id == negotiated_id))
+            {
+                return Err(RtcError::InvalidState(format!(
+                    "data channel id {negotiated_id} is already in use"
+                )));
+            }
             negotiated_id
         } else {
             let is_client = self.inner.dtls_role.borrow().unwrap_or(true);
